@@ -35,18 +35,20 @@ func H18_retained_update() {
 	}
 	vrtExchange(p, pk2)
 	s2, _ := b.connect(vrtConnectPkt([]byte("s2"), true))
-	vrtExchange(s2, &specPkt{Typ: specSUBSCRIBE, ID: 1, Topics: [][]byte{[]byte("#")}, QoS: []byte{0}})
+	vrtExchange(s2, &specPkt{Typ: specSUBSCRIBE, ID: 1, Topics: [][]byte{[]byte("#")}, QoS: []byte{1}}) // (no downgrade yet: the first one happens concurrently below)
 	// two connections and an in-process call receive the same stored retained message at the same time
 	s3, _ := b.connect(vrtConnectPkt([]byte("s3"), true))
-	s2.peerSend(specEncode(&specPkt{Typ: specSUBSCRIBE, ID: 2, Topics: [][]byte{[]byte("r")}, QoS: []byte{1}}))
+	s2.peerSend(specEncode(&specPkt{Typ: specSUBSCRIBE, ID: 2, Topics: [][]byte{[]byte("r")}, QoS: []byte{0}})) // (its copy is downgraded)
 	s3.peerSend(specEncode(&specPkt{Typ: specSUBSCRIBE, ID: 1, Topics: [][]byte{[]byte("+")}, QoS: []byte{2}}))
 	in2 := vrtNewInproc()
 	b.svr.Subscribe("r", 1, &in2.fn)
 	vrtQuiesce()
-	// the retained message is cleared while new subscriptions look it up
+	// the retained message is cleared while new subscriptions look it up (by a connection that was accepted
+	// last: under the canonical schedule its goroutines run after the subscribers')
+	p2, _ := b.connect(vrtConnectPkt([]byte("p2"), true))
 	s2.peerSend(specEncode(&specPkt{Typ: specSUBSCRIBE, ID: 3, Topics: [][]byte{[]byte("r")}, QoS: []byte{0}}))
 	s3.peerSend(specEncode(&specPkt{Typ: specSUBSCRIBE, ID: 2, Topics: [][]byte{[]byte("#")}, QoS: []byte{1}}))
-	p.peerSend(specEncode(&specPkt{Typ: specPUBLISH, Flags: 1, Topic: []byte("r")}))
+	p2.peerSend(specEncode(&specPkt{Typ: specPUBLISH, Flags: 1, Topic: []byte("r")}))
 	vrtQuiesce()
 	vrtReach("C18.retained_update")
 }
